@@ -53,6 +53,10 @@ def run_bringup(ncp_v, path_kind="serial", second_reset=False, fault=None):
                             s.line.flush()
                         s.loop.call_later(0.04, obeyed)
                         return None
+                    elif k - 1 == idx and kind == "duprstack":
+                        # the line duplicates the RSTACK that answers this RST
+                        out["fault_hit"] = "the RSTACK answering this RST duplicated by the line"
+                        counters["dup_next_rstack"] = True
                     elif k - 1 == idx and kind == "busy":
                         # another task of the application (the watchdog, a queued request) issues a command while the reset
                         # handshake is in progress -- the NCP takes 50 ms to obey the RST, deaf meanwhile
@@ -116,6 +120,9 @@ def run_bringup(ncp_v, path_kind="serial", second_reset=False, fault=None):
         def n2h(fr):
             i = counters["n2h"]
             counters["n2h"] += 1
+            if counters.get("dup_next_rstack") and bytes(fr)[:1] == b"\xc1":
+                counters["dup_next_rstack"] = False
+                return [fr, fr]
             if d == "n2h" and i == idx:
                 out["fault_hit"] = "RSTACK" if bytes(fr)[:1] == b"\xc1" else "other"
                 out["fault_phase"] = len(out["phases"])
@@ -185,6 +192,10 @@ def run_bringup(ncp_v, path_kind="serial", second_reset=False, fault=None):
         if late:
             s.loop.call_later(1.5, lambda: (setattr(s.ncp, "up", True), s.ncp.reset(0x0B), s.line.flush()))
         out["phases"].append(await bring("first"))
+        # the application registers its handler on the EZSP object once the stack is up (start_network does): from now on
+        # EZSP forwards failures to it
+        if fault is not None and fault[2] == "duprstack":
+            s.ez.add_callback(lambda name, args: out.setdefault("app_events", []).append(str(name)))
         if second_reset:
             out["phases"].append(await bring("second"))
 
@@ -250,7 +261,7 @@ class Check(PropertyCheck):
         for v in ((4, 8, 13) if tier == "quick" else versions):
             for path in ("serial", "socket-seen", "socket-absent"):
                 for k in (0, 1):
-                    for kind in ("stale0", "stalecur", "poweron") + (("busy",) if k == 1 else ()):
+                    for kind in ("stale0", "stalecur", "poweron", "duprstack") + (("busy",) if k == 1 else ()):
                         cases.append({"v": v, "path": path, "second": True, "fault": ("rst", k, kind)})
         # the reset handshake has no retry: a lost or damaged RST / RSTACK makes that bring-up time out.  The NEXT reset on the
         # same objects (a retry by the caller, the application's later reset) runs over a healthy line and must work
@@ -352,6 +363,10 @@ class Check(PropertyCheck):
             if recoverable and ((ph.get("later") or "").startswith("raise") or ph.get("config") != "ok"):
                 return (f"NCP v{v} ({case['path']}): after a single {case['fault'][2]} fault the first command / the default configuration "
                         f"failed: later={ph.get('later')!r} config={ph.get('config')!r}")
+            if ph["tag"] == "second" and "_reset_controller_application" in obs.get("app_events", []) and case["fault"] is not None \
+                    and case["fault"][2] in ("duprstack", "dup"):
+                return (f"NCP v{v} ({case['path']}): during the later reset the application was asked to restart the controller although "
+                        f"the only fault was a duplicated frame ({obs.get('fault_hit')})")
             ff = ph.get("first_frame")
             if ph["tag"] == "second" and ff is not None and bytes.fromhex(ff)[1:] != bytes([0x00, 0x00, 0x04]):
                 return (f"NCP v{v} ({case['path']}): after the later reset the first EZSP frame the NCP received is {ff}, not the "
